@@ -45,10 +45,13 @@ def main():
     if P.errors:
         raise Unsupported("; ".join(P.errors))
     depth = 1 if C.tier == "quick" else 2
-    C.bounds = {"type_depth": depth, "max_arity": T.MAX_ARITY, "names": T.NAMES, "unify_all_elements": "2 at depth 1" if C.tier == "quick" else "3 at depth 1"}
+    C.bounds = {"type_depth": depth if depth == 1 else "first argument 2, second argument 1; unify(t, t) at 2", "max_arity": T.MAX_ARITY, "names": T.NAMES, "unify_all_elements": "2 at depth 1" if C.tier == "quick" else "3 at depth 1"}
     C.assumptions += ["type names are atoms; derive(PartialEq) on Type/TypeName is structural equality (merged over templates)",
                       "well-formed types without Error nodes (property statement)"]
     S = T.TypeSpace(P, depth)
+    # thorough: the first argument is a depth-2 template, the second a depth-1 template (two depth-2 templates are
+    # several hundred thousand paths and do not finish in an hour); unify(t, t) is checked on depth-2 templates
+    SB = S if depth == 1 else T.TypeSpace(P, 1)
     hooks = {}
 
     def hook(op):
@@ -57,10 +60,10 @@ def main():
         return hooks[op]
 
     def run_pair(ctx, same=False):
-        ctx.assume(z3.And(S.wf("a"), S.wf("b")))
+        ctx.assume(z3.And(S.wf("a"), SB.wf("b")))
         I = Interp(P, ctx)
         A = S.build("a")
-        B = S.build("a") if same else S.build("b")
+        B = S.build("a") if same else SB.build("b")
         r = I.call_user(P.fns["unify"], [A, B])
         out = {"I": I, "A": A, "B": B, "r": r}
         if isinstance(r, Enum) and r.variant == "Some":
@@ -75,7 +78,7 @@ def main():
     def replay_pair(rec):
         def replay(m):
             a = T.type_to_json(m, S, "a")
-            b = T.type_to_json(m, S, "b") if rec["B"].label == "b" else a
+            b = T.type_to_json(m, SB, "b") if rec["B"].label == "b" else a
             u = hook("unify").ask({"a": a, "b": b})
             if u is None:
                 return {"reproduced": False, "detail": f"real unify({T.show(a)}, {T.show(b)}) = None"}
@@ -111,7 +114,7 @@ def main():
             claim = b_and(v["a_sub_u"], v["b_sub_u"])
             C.prove(f"{tag}/path{i}:inputs-are-subtypes-of-result", r.pc, claim, site="unify/result-not-a-supertype",
                     what="unify(a, b) = u but a <: u or b <: u fails", replay=replay_pair(v),
-                    model_desc=lambda m: {"a": T.show(T.type_to_json(m, S, "a")), "b": T.show(T.type_to_json(m, S, "b"))})
+                    model_desc=lambda m: {"a": T.show(T.type_to_json(m, S, "a")), "b": T.show(T.type_to_json(m, SB, "b"))})
             if same:
                 C.prove(f"same/path{i}:equal-types-return-that-type", r.pc, v["u_eq_a"], site="unify/equal-types-changed",
                         what="unify(t, t) returns a type different from t", replay=replay_pair(v),
